@@ -87,3 +87,19 @@ class ScriptProcDefault(ScriptProc):
 
     get_state = Process.get_state
     set_state = Process.set_state
+
+
+class ScriptProcShared(ScriptProc):
+    """custom (partial) state as ScriptProc, plus a mutable attribute that is *not* part of the state and is reported with every
+    local message handled: if a copy made for model checking shared it with the original, the original's reports would change"""
+
+    def __init__(self, rules_json, record):
+        super().__init__(rules_json, record)
+        self.seen = []
+
+    def _mutate(self, trig):
+        self.seen.append(trig)
+
+    def on_local_message(self, msg, ctx):
+        super().on_local_message(msg, ctx)
+        ctx.send_local(Message("seen", len(self.seen)))
